@@ -36,6 +36,8 @@ pub fn families() -> Vec<&'static dyn Family> {
         &nsim::mtls::MTLS,
         &nsim::stall::STALL,
         &nsim::frames::HOSTILE_FRAMES,
+        &nsim::shutdown::SHUTDOWN_LIVE,
+        &nsim::multitopic::MULTI_TOPIC,
     ]
 }
 
@@ -84,7 +86,7 @@ pub fn plan(property: &str) -> Option<CheckPlan> {
             ],
             real: R_REAL.to_vec(),
             stubbed: R_STUB.to_vec(),
-            items: vec![PlanItem { family: &rsim::pubsub::PS_CLEAN, quick: 200_000, thorough: 5_000_000 }, PlanItem { family: &rsim::pubsub::PS_FAIL_RANDOM, quick: 60_000, thorough: 1_500_000 }],
+            items: vec![PlanItem { family: &rsim::pubsub::PS_CLEAN, quick: 200_000, thorough: 5_000_000 }, PlanItem { family: &rsim::pubsub::PS_FAIL_RANDOM, quick: 60_000, thorough: 1_500_000 }, PlanItem { family: &nsim::multitopic::MULTI_TOPIC, quick: 300, thorough: 10_000 }],
         }),
         "C02" => Some(CheckPlan {
             property: "C02",
@@ -119,7 +121,7 @@ pub fn plan(property: &str) -> Option<CheckPlan> {
             assumptions: vec!["a replier counts as still bound until a parked poll has happened after its stream end"],
             real: R_REAL.to_vec(),
             stubbed: R_STUB.to_vec(),
-            items: vec![PlanItem { family: &rsim::reqrep::RR_REPLIERS, quick: 150_000, thorough: 4_000_000 }],
+            items: vec![PlanItem { family: &rsim::reqrep::RR_REPLIERS, quick: 150_000, thorough: 4_000_000 }, PlanItem { family: &nsim::shutdown::SHUTDOWN_LIVE, quick: 60, thorough: 2_000 }],
         }),
         "C15" => Some(CheckPlan {
             property: "C15",
@@ -141,6 +143,7 @@ pub fn plan(property: &str) -> Option<CheckPlan> {
                 PlanItem { family: &rsim::pubsub::PS_SHUTDOWN, quick: 100_000, thorough: 2_500_000 },
                 PlanItem { family: &rsim::reqrep::RR_SHUTDOWN, quick: 50_000, thorough: 1_500_000 },
                 PlanItem { family: &rsim::pubsub::PS_SHUTDOWN_FAIL, quick: 60_000, thorough: 1_500_000 },
+                PlanItem { family: &nsim::shutdown::SHUTDOWN_LIVE, quick: 100, thorough: 4_000 },
             ],
         }),
         "C08" => Some(CheckPlan {
